@@ -971,7 +971,12 @@ def check_case(op, inp):
                         'sig': dict(sig, what='mos_values')}
         # dictionary
         e3 = EPW.from_dict(copy.deepcopy(e.to_dict()))    # (JSON would turn the float depth keys into strings: C07)
-        dd = _snap_diff(s0, _snap(e)) or _snap_diff(s0, _snap(e3))
+        s3 = _snap(e3)
+        # Location(...) turns an empty state / station into its placeholders: not a number of the EPW
+        if tuple(x or '-' for x in s3['location']) == tuple(x or '-' for x in s0['location']) or \
+                [x for x in s3['location'] if x not in ('-', 'None', None)] == [x for x in s0['location'] if x]:
+            s3 = dict(s3, location=s0['location'], header=(s0['header'][0],) + tuple(s3['header'][1:]))
+        dd = _snap_diff(s0, _snap(e)) or _snap_diff(s0, s3)
         if dd:
             return {'required': 'to_dict/from_dict carry the same numbers', 'observed': dd,
                     'sig': dict(sig, what='dict', part=dd.split('[')[0])}
@@ -1168,6 +1173,11 @@ def _oracle_cases(ctx):
     yield 'exports', {'file': 'chicago.epw', 'ip': True}
     specs = _synth_specs(ctx, rng)
     for s in specs:
+        rows = s.get('nrows', 8784 if s['leap'] == 'Yes' else 8760)
+        lines = rows + (1 if s.get('blank', -1) >= 0 else 0)
+        want = 8784 if (s['leap'] == 'Yes' or (s['leap'] == '' and lines == 8784)) else 8760
+        if rows != want or s.get('ncols', 35) < 35:
+            continue                # not a well-formed EPW text (rejected on import: correspondence covers it)
         yield 'roundtrip', {'spec': s}
     yield 'exports', {'spec': specs[1]}
     if big:
